@@ -138,9 +138,14 @@ def build_scheme_class(
     return tpe  # type: ignore
 
 
-def build_schemes(data: List[SchemeDatum]) -> Dict[str, Type[MafScheme]]:
+def build_schemes(
+    data: List[SchemeDatum],
+    existing: Optional[Dict[str, Type[MafScheme]]] = None,
+) -> Dict[str, Type[MafScheme]]:
     """
     Builds the schemes represented by the list of ``SchemeDatum``s.
+    :param existing: schemes built by an earlier call, by annotation; a
+    definition found there is not built again
     :return: a mapping from the scheme annotation to the scheme
     """
     schemes: Dict[str, Type[MafScheme]] = {}
@@ -154,6 +159,13 @@ def build_schemes(data: List[SchemeDatum]) -> Dict[str, Type[MafScheme]]:
             "More than one scheme definition found for annotation "
             "specification(s): %s" % ", ".join(duplicates)
         )
+    # a definition that was built before keeps the very scheme (and column)
+    # classes it was built with: records and schemes handed out before a later
+    # registration stay valid for readers and writers created after it
+    for datum in list(data):
+        if existing and datum.annotation in existing:
+            schemes[datum.annotation] = existing[datum.annotation]
+            data.remove(datum)
     while data:
         # find a scheme data that either doesn't extend any other scheme, or
         # whose base scheme it extends we have already built
@@ -302,6 +314,7 @@ def scheme_sort_key(scheme: Type[MafScheme]) -> T:
 
 def load_all_schemes(
     extra_filenames: Optional[List[str]] = None,
+    existing: Optional[Dict[str, Type[MafScheme]]] = None,
 ) -> List[Type[MafScheme]]:
     """Load all the built-in schemes and any schemes given with
     ``extra_filename``.  Schemes must have a unique version and annotation
@@ -319,7 +332,9 @@ def load_all_schemes(
     data = load_all_scheme_data(filenames=filenames, column_types=column_types)
 
     # Build the schemes
-    schemes_dict: Dict[str, Type[MafScheme]] = build_schemes(data=data)
+    schemes_dict: Dict[str, Type[MafScheme]] = build_schemes(
+        data=data, existing=existing
+    )
 
     # Gather all the schemes
     # NB: could sort by version an annotation
@@ -355,7 +370,12 @@ def all_schemes(extra_filenames: Optional[List[str]] = None) -> List[Type[MafSch
         for filename in extra_filenames or []:
             if filename not in filenames:
                 filenames.append(filename)
-        __ALL_SCHEMES = load_all_schemes(extra_filenames=filenames)
+        existing = {
+            scheme.annotation_spec(): scheme
+            for scheme in __ALL_SCHEMES
+            if scheme is not NoRestrictionsScheme
+        }
+        __ALL_SCHEMES = load_all_schemes(extra_filenames=filenames, existing=existing)
         __EXTRA_FILENAMES = filenames
         __LOADED_ALL_SCHEMES = True
     return __ALL_SCHEMES
